@@ -6,7 +6,7 @@ namespace Goml.GoComp
 open Goml Goml.Go Goml.GoCompile Goml.GoFrag
 open Goml.Sem (Val World Res Fail)
 open Goml.C01 (toG)
-open Goml.Dce (keys allDecls lookup_cons_self lookup_cons_ne lookup_none_of_not_key key_of_lookup_some
+open Goml.Dce (keys lookup_cons_self lookup_cons_ne lookup_none_of_not_key key_of_lookup_some
   keys_update lookup_update_ne lookup_update_self update_not_key)
 
 attribute [local irreducible] Goml.GoCompile.vn Goml.GoCompile.gid Goml.GoCompile.rn
@@ -17,12 +17,33 @@ theorem post_append {m : Mode} {D : GEnv} (gρ : GEnv) (gv : GVal) (h : ∀ t, m
   | effect => rfl
   | assign t => exact update_append_left (h t rfl) gρ gv
 
-theorem cexprTastTy_frag {env : Env} {file : AFile} {G : List String} {Γ : Ctx} {c : CExpr}
-    (h : fragC env file G Γ c = true) : cexprTastTy env c = c.annTy := by
+/-- `cgetField` on a variant of an admitted enum: the payload field -/
+theorem cgetField_enum {env : Env} {e : Imm} {tn vname : String} {vi idx : Nat} {n vn' : String} {tys : List Ty} {t : Ty}
+    (hv : variantOf env (.enum tn) vi = some (n, vn', tys)) (ht : tys[idx]? = some t) :
+    cgetField env e (.enum tn vname vi) idx = some (fieldN idx, t) := by
+  obtain ⟨hE, _, d, hd, hvar⟩ := variantOf_spec hv
+  injection hE with hE; subst hE
+  simp [cgetField, hd, hvar, ht]
+
+theorem cexprTastTy_frag {env : Env} {file : AFile} {G : List String} {Γ : Ctx} {K : KCtx} {c : CExpr}
+    (h : fragC env file G Γ K c = true) : cexprTastTy env c = c.annTy := by
   cases c <;> first | rfl | (simp [fragC] at h; done) | skip
   rename_i e c idx ty
   cases c with
-  | enum tn vn' vi => simp [fragC] at h
+  | enum tn vn' vi =>
+    simp only [fragC, Bool.and_eq_true] at h
+    obtain ⟨_, hcase⟩ := h
+    simp only [cexprTastTy, CExpr.annTy]
+    cases hv : variantOf env (.enum tn) vi with
+    | none => rw [hv] at hcase; simp at hcase
+    | some vv =>
+      obtain ⟨n, vname, tys⟩ := vv
+      rw [hv] at hcase; simp only at hcase
+      cases ht : tys[idx]? with
+      | none => rw [ht] at hcase; simp at hcase
+      | some t =>
+        rw [ht] at hcase; simp only at hcase
+        rw [cgetField_enum hv ht]; simp [scalarEq_eq hcase]
   | struct sn =>
     simp only [fragC, Bool.and_eq_true] at h
     obtain ⟨_, hcase⟩ := h
@@ -37,7 +58,7 @@ theorem scalar_flat {t : Ty} (h : scalarTy t = true) : flatTy t = true := by
 theorem okPrim_scalar {p : Prim} {ty : Ty} (h : okPrim p ty = true) : flatTy ty = true := by
   cases p <;> cases ty <;> simp [okPrim] at h <;> rfl
 
-theorem immOK_scalar {Γ : Ctx} {i : Imm} (h : immOK Γ i = true) : flatTy i.ty = true := by
+theorem immOK_scalar {env : Env} {Γ : Ctx} {i : Imm} (h : immOK env Γ i = true) : flatTy i.ty = true := by
   cases i with
   | var x ty =>
     simp only [immOK] at h
@@ -45,13 +66,20 @@ theorem immOK_scalar {Γ : Ctx} {i : Imm} (h : immOK Γ i = true) : flatTy i.ty 
     | none => rw [hl] at h; simp at h
     | some t => rw [hl] at h; simp only at h; have := scalarEq_eq h; subst this; exact scalarEq_flat h
   | prim p ty => exact okPrim_scalar h
-  | tag i t => simp [immOK] at h
+  | tag i t =>
+    simp only [immOK] at h
+    cases hv : variantOf env t i with
+    | none => rw [hv] at h; simp at h
+    | some vv =>
+      obtain ⟨n, vname, tys⟩ := vv
+      obtain ⟨hE, _⟩ := variantOf_spec hv
+      simp [Imm.ty, hE, flatTy]
 
 theorem scalarEq_scalar_right {a b : Ty} (h : scalarEq a b = true) : flatTy b = true := by
   have := scalarEq_eq h; subst this; exact scalarEq_flat h
 
-theorem fragC_scalar {env : Env} {file : AFile} {G : List String} {Γ : Ctx} {c : CExpr}
-    (h : fragC env file G Γ c = true) : flatTy c.annTy = true := by
+theorem fragC_scalar {env : Env} {file : AFile} {G : List String} {Γ : Ctx} {K : KCtx} {c : CExpr}
+    (h : fragC env file G Γ K c = true) : flatTy c.annTy = true := by
   cases c with
   | imm i => exact immOK_scalar h
   | un op e ty =>
@@ -76,16 +104,25 @@ theorem fragC_scalar {env : Env} {file : AFile} {G : List String} {Γ : Ctx} {c 
     | tag i t => simp [fragC, callOK] at h
   | ite c t e ty => simp only [fragC, Bool.and_eq_true] at h; exact scalarEq_scalar_right h.1.2
   | «while» c b ty => simp only [fragC, Bool.and_eq_true] at h; exact scalarEq_flat h.2
-  | matchE s arms d ty => simp [fragC] at h
+  | matchE s arms d ty => simp only [fragC, Bool.and_eq_true] at h; exact h.1.2
   | constr c args ty =>
     cases c with
-    | enum tn vn' vi => simp [fragC] at h
+    | enum tn vn' vi => simp only [fragC, Bool.and_eq_true] at h; exact scalarEq_flat h.1
     | struct sn => simp only [fragC, Bool.and_eq_true] at h; exact scalarEq_flat h.1.1
   | tuple items ty => simp [fragC] at h
   | array items ty => simp [fragC] at h
   | cget e c idx ty =>
     cases c with
-    | enum tn vn' vi => simp [fragC] at h
+    | enum tn vn' vi =>
+      simp only [fragC, Bool.and_eq_true] at h
+      obtain ⟨_, hcase⟩ := h
+      cases hv : variantOf env (.enum tn) vi with
+      | none => rw [hv] at hcase; simp at hcase
+      | some vv =>
+        rw [hv] at hcase; simp only at hcase
+        cases ht : vv.2.2[idx]? with
+        | none => rw [ht] at hcase; simp at hcase
+        | some t => rw [ht] at hcase; simp only at hcase; exact scalarEq_flat hcase
     | struct sn =>
       simp only [fragC, Bool.and_eq_true] at h
       obtain ⟨_, hcase⟩ := h
@@ -97,8 +134,8 @@ theorem fragC_scalar {env : Env} {file : AFile} {G : List String} {Γ : Ctx} {c 
   | go e ty => simp [fragC] at h
   | proj e idx ty => simp [fragC] at h
 
-theorem bindSimple_shape {env : Env} {file : AFile} {G : List String} {Γ : Ctx} {v : CExpr} (x : String)
-    (h : fragC env file G Γ v = true) :
+theorem bindSimple_shape {env : Env} {file : AFile} {G : List String} {Γ : Ctx} {K : KCtx} {v : CExpr} (x : String)
+    (h : fragC env file G Γ K v = true) :
     compileBindSimple env x v = [.varDecl (vn x) (goTy v.annTy) (some (compileCExpr env v))] := by
   have := cexprTastTy_frag h
   cases v <;> first | (simp [fragC] at h; done) | simp only [compileBindSimple, cexprTy, this]
@@ -106,20 +143,20 @@ theorem bindSimple_shape {env : Env} {file : AFile} {G : List String} {Γ : Ctx}
 /-- the rest of a `let`: the binding `x` has just been made by the prefix `var x … ; d1`, which
     left `D1` (declarations of `d1`) on top of it -/
 theorem let_body {env : Env} {file : AFile} {G : List String} {P : Prog} {F : GFile} {n : Nat}
-    (ha : SimA env file G P F n) (m : Mode) (st2 : St) (x : String) (tx : Ty) (body : AExpr) (Γ : Ctx) (ρ : Sem.Env)
+    (ha : SimA env file G P F n) (m : Mode) (st2 : St) (x : String) (tx : Ty) (body : AExpr) (Γ : Ctx) (K : KCtx) (ρ : Sem.Env)
     (gρ : GEnv) (gw : GWorld) (Bad : List String) (T : GTy) (init : Option GExpr) (d1 : List GStmt)
     (D1 : GEnv) (vv : Val) (gv : GVal) (w1 : World) (gw1 : GWorld)
     (hpre : BlockS F gρ gw (.varDecl (vn x) T init :: d1) (.ok (D1 ++ (vn x, gv) :: gρ, .normal) gw1))
-    (hD1 : ∀ y, y ∈ keys D1 → y ∈ allDecls d1)
+    (hD1 : ∀ y, y ∈ keys D1 → y ∈ ndDecls d1)
     (hinv : GInv Bad ((.varDecl (vn x) T init :: d1) ++ (compileA env m st2 body).1) gρ)
-    (hrel : EnvRel env Γ ρ gρ) (h3 : toGV env vv = some gv) (h4 : HasTy env vv tx) (hw1 : WRel w1 gw1)
-    (hfb : fragA env file G ((x, tx) :: Γ) body = true) (htgt : TgtOK m Γ gρ (aTy body)) (hus : "_" ∈ Bad)
+    (hrel : EnvRel env Γ ρ gρ) (hkrel : KRel K ρ) (h3 : toGV env vv = some gv) (h4 : HasTy env vv tx) (hw1 : WRel w1 gw1)
+    (hfb : fragA env file G ((x, tx) :: Γ) (eraseK K x) body = true) (htgt : TgtOK m Γ gρ (aTy body)) (hus : "_" ∈ Bad)
     (hcal : ∀ c, c ∈ calleesA body → vn c ∈ Bad) :
     Concl env F ((.varDecl (vn x) T init :: d1) ++ (compileA env m st2 body).1) m gρ gw (aTy body)
       (Sem.eval n P ((x, vv) :: ρ) w1 body.toExpr) := by
-  have hdecls : allDecls ((GStmt.varDecl (vn x) T init :: d1) ++ (compileA env m st2 body).1) =
-      vn x :: (allDecls d1 ++ allDecls (compileA env m st2 body).1) := by
-    rw [allDecls_append, allDecls_varDecl]; rfl
+  have hdecls : ndDecls ((GStmt.varDecl (vn x) T init :: d1) ++ (compileA env m st2 body).1) =
+      vn x :: (ndDecls d1 ++ ndDecls (compileA env m st2 body).1) := by
+    rw [ndDecls_append, ndDecls_varDecl]; rfl
   have hnd := hinv.nodup; rw [hdecls] at hnd
   obtain ⟨hxnot, hnd'⟩ := List.nodup_cons.mp hnd
   have hfresh : ¬ vn x ∈ keys gρ := hinv.disj _ (by rw [hdecls]; exact List.mem_cons_self)
@@ -138,7 +175,7 @@ theorem let_body {env : Env} {file : AFile} {G : List String} {P : Prog} {F : GF
   have hinv2 : GInv Bad (compileA env m st2 body).1 (D1 ++ (vn x, gv) :: gρ) := by
     have := GInv.right (D := D1 ++ [(vn x, gv)]) (U := gρ) hinv rfl (fun y hy => by
       rw [keys_append, List.mem_append] at hy
-      rw [allDecls_varDecl]
+      rw [ndDecls_varDecl]
       rcases hy with hy | hy
       · exact List.mem_cons_of_mem _ (hD1 y hy)
       · simp only [Goml.Dce.keys_cons, Goml.Dce.keys_nil, List.mem_singleton] at hy; subst hy; exact List.mem_cons_self)
@@ -161,7 +198,7 @@ theorem let_body {env : Env} {file : AFile} {G : List String} {P : Prog} {F : GF
     rintro (h | h)
     · exact hD1disj _ h htk
     · simp only [Goml.Dce.keys_cons, Goml.Dce.keys_nil, List.mem_singleton] at h; exact hfresh (h ▸ htk)
-  have hB := ha m st2 body ((x, tx) :: Γ) ((x, vv) :: ρ) w1 (D1 ++ (vn x, gv) :: gρ) gw1 Bad hfb hrel2 hw1 hinv2 htgt2 hus hcal
+  have hB := ha m st2 body ((x, tx) :: Γ) (eraseK K x) ((x, vv) :: ρ) w1 (D1 ++ (vn x, gv) :: gρ) gw1 Bad hfb hrel2 (hkrel.bind x vv) hw1 hinv2 htgt2 hus hcal
   revert hB
   cases hres : Sem.eval n P ((x, vv) :: ρ) w1 body.toExpr with
   | ok v2 w2 =>
@@ -189,11 +226,11 @@ theorem let_body {env : Env} {file : AFile} {G : List String} {P : Prog} {F : GF
 theorem stepA {env : Env} {file : AFile} {G : List String} {P : Prog} {F : GFile} {n : Nat}
     (hc1 : SimC env file G P F (n + 1)) (hv : SimV env file G P F n) (hc : SimC env file G P F n)
     (ha : SimA env file G P F n) : SimA env file G P F (n + 1) := by
-  intro m st e Γ ρ w gρ gw Bad hfrag hrel hw hinv htgt hus hcal
+  intro m st e Γ K ρ w gρ gw Bad hfrag hrel hkrel hw hinv htgt hus hcal
   cases e with
   | ret c =>
     simp only [compileA, AExpr.toExpr, aTy, fragA, calleesA] at *
-    exact hc1 m st c Γ ρ w gρ gw Bad hfrag hrel hw hinv htgt hus hcal
+    exact hc1 m st c Γ K ρ w gρ gw Bad hfrag hrel hkrel hw hinv htgt hus hcal
   | letE x v body ty =>
     simp only [fragA, Bool.and_eq_true] at hfrag
     obtain ⟨hfv, hfb⟩ := hfrag
@@ -211,9 +248,9 @@ theorem stepA {env : Env} {file : AFile} {G : List String} {P : Prog} {F : GFile
       have hcons : ∀ (l1 l2 : List GStmt), GStmt.varDecl (vn x) (goTy v.annTy) none :: (l1 ++ l2) =
           (GStmt.varDecl (vn x) (goTy v.annTy) none :: l1) ++ l2 := fun _ _ => rfl
       rw [hcons] at hinv ⊢
-      have hdecls : allDecls ((GStmt.varDecl (vn x) (goTy v.annTy) none :: d.1) ++ (compileA env m d.2 body).1) =
-          vn x :: (allDecls d.1 ++ allDecls (compileA env m d.2 body).1) := by
-        rw [allDecls_append, allDecls_varDecl]; rfl
+      have hdecls : ndDecls ((GStmt.varDecl (vn x) (goTy v.annTy) none :: d.1) ++ (compileA env m d.2 body).1) =
+          vn x :: (ndDecls d.1 ++ ndDecls (compileA env m d.2 body).1) := by
+        rw [ndDecls_append, ndDecls_varDecl]; rfl
       have hfresh : ¬ vn x ∈ keys gρ := hinv.disj _ (by rw [hdecls]; exact List.mem_cons_self)
       have hvd : StmtS F gρ gw (.varDecl (vn x) (goTy v.annTy) none) (.ok ((vn x, zero F (goTy v.annTy)) :: gρ, .normal) gw) :=
         stmt_varDecl_none (flat_not_absurd hsc)
@@ -226,12 +263,12 @@ theorem stepA {env : Env} {file : AFile} {G : List String} {P : Prog} {F : GFile
         have h1 := GInv.right (a := [GStmt.varDecl (vn x) (goTy v.annTy) none]) (b := d.1 ++ (compileA env m d.2 body).1)
           (D := [(vn x, zero F (goTy v.annTy))]) (U := gρ) (by simpa using hinv) rfl (fun y hy => by
             simp only [Goml.Dce.keys_cons, Goml.Dce.keys_nil, List.mem_singleton] at hy; subst hy
-            rw [allDecls_varDecl]; exact List.mem_cons_self)
+            rw [ndDecls_varDecl]; exact List.mem_cons_self)
         exact h1.left
       have htgtd : TgtOK (.assign (rn x)) Γ ((vn x, zero F (goTy v.annTy)) :: gρ) v.annTy := by
         refine ⟨by rw [← vn_def]; simp, fun y ty hy => ?_⟩
         rw [← vn_def]; exact hne y ty hy
-      have hD := hc (.assign (rn x)) st1 v Γ ρ w _ gw Bad hfv hrel1 hw (hd ▸ hinvd) htgtd hus hcalv
+      have hD := hc (.assign (rn x)) st1 v Γ K ρ w _ gw Bad hfv hrel1 hkrel hw (hd ▸ hinvd) htgtd hus hcalv
       rw [hd] at hD
       revert hD
       cases hres : Sem.eval n P ρ w v.toExpr with
@@ -241,7 +278,7 @@ theorem stepA {env : Env} {file : AFile} {G : List String} {P : Prog} {F : GFile
         have hup : post (.assign (rn x)) ((vn x, zero F (goTy v.annTy)) :: gρ) gv = (vn x, gv) :: gρ := by
           simp only [post]; rw [← vn_def]; exact update_cons_self _ _ _ _
         rw [hup] at hb
-        exact let_body ha m d.2 x v.annTy body Γ ρ gρ gw Bad _ _ d.1 D1 vv gv w1 gw1 (block_cons hvd hb) hD1 hinv hrel h3 h4 h5
+        exact let_body ha m d.2 x v.annTy body Γ K ρ gρ gw Bad _ _ d.1 D1 vv gv w1 gw1 (block_cons hvd hb) hD1 hinv hrel hkrel h3 h4 h5
           hfb htgt hus hcalb
       | fail fl w1 =>
         cases fl with
@@ -257,20 +294,20 @@ theorem stepA {env : Env} {file : AFile} {G : List String} {P : Prog} {F : GFile
       have hctl' : isCtl v = false := by simpa using hctl
       simp only [compileA, hctl', Bool.false_eq_true, if_false, bindSimple_shape x hfv] at hinv ⊢
       generalize hst1 : st.check (okBindSimple env v) = st1 at hinv ⊢
-      have hV := hv v Γ ρ w gρ gw Bad hctl' hfv hrel hw hinv.goodK hcalv
+      have hV := hv v Γ K ρ w gρ gw Bad hctl' hfv hrel hkrel hw hinv.goodK hcalv
       revert hV
       cases hres : Sem.eval n P ρ w v.toExpr with
       | ok vv w1 =>
-        rintro ⟨gv, gw1, he, h3, h4, h5⟩
+        rintro ⟨gv, gw1, he, h3, h4, h5, _⟩
         simp only
         have hvd : StmtS F gρ gw (.varDecl (vn x) (goTy v.annTy) (some (compileCExpr env v)))
             (.ok ((vn x, gv) :: gρ, .normal) gw1) := stmt_varDecl_some (flat_not_absurd hsc) he
-        exact let_body ha m st1 x v.annTy body Γ ρ gρ gw Bad _ _ [] [] vv gv w1 gw1 (block_cons hvd block_nil)
-          (fun y hy => by cases hy) hinv hrel h3 h4 h5 hfb htgt hus hcalb
+        exact let_body ha m st1 x v.annTy body Γ K ρ gρ gw Bad _ _ [] [] vv gv w1 gw1 (block_cons hvd block_nil)
+          (fun y hy => by cases hy) hinv hrel hkrel h3 h4 h5 hfb htgt hus hcalb
       | fail fl w1 =>
         cases fl with
         | panic k =>
-          rintro ⟨gw1, he, h5⟩
+          rintro ⟨gw1, he, h5, _⟩
           simp only
           exact ⟨gw1, block_cons_fail (stmt_varDecl_fail (flat_not_absurd hsc) he), h5⟩
         | fuel => intro _; trivial
@@ -298,9 +335,9 @@ theorem compileA_let (env : Env) (m : Mode) (st : St) (x : String) (v : CExpr) (
     the value of `v` in `x` — before any statement of the body; if `v` panics, nothing after it runs -/
 theorem let_order {env : Env} {file : AFile} {G : List String} {P : Prog} {F : GFile} {n : Nat}
     (hv : SimV env file G P F n) (hc : SimC env file G P F n)
-    (m : Mode) (st : St) (x : String) (v : CExpr) (body : AExpr) (ty : Ty) (Γ : Ctx) (ρ : Sem.Env) (w : World)
+    (m : Mode) (st : St) (x : String) (v : CExpr) (body : AExpr) (ty : Ty) (Γ : Ctx) (K : KCtx) (ρ : Sem.Env) (w : World)
     (gρ : GEnv) (gw : GWorld) (Bad : List String)
-    (hfrag : fragA env file G Γ (.letE x v body ty) = true) (hrel : EnvRel env Γ ρ gρ) (hw : WRel w gw)
+    (hfrag : fragA env file G Γ K (.letE x v body ty) = true) (hrel : EnvRel env Γ ρ gρ) (hkrel : KRel K ρ) (hw : WRel w gw)
     (hinv : GInv Bad (compileA env m st (.letE x v body ty)).1 gρ) (hus : "_" ∈ Bad)
     (hcal : ∀ c, c ∈ calleesA (.letE x v body ty) → vn c ∈ Bad) :
     match Sem.eval n P ρ w v.toExpr with
@@ -318,7 +355,7 @@ theorem let_order {env : Env} {file : AFile} {G : List String} {P : Prog} {F : G
   · simp only [letPrefix, hctl, if_true] at hinvP ⊢
     rw [show cexprTy env v = goTy v.annTy by simp [cexprTy, cexprTastTy_frag hfv]] at hinvP ⊢
     generalize hd : compileTail env (.assign (rn x)) (st.check (okTy (cexprTastTy env v))) v = d at hinvP ⊢
-    have hfresh : ¬ vn x ∈ Goml.Dce.keys gρ := hinvP.disj _ (by rw [allDecls_varDecl]; exact List.mem_cons_self)
+    have hfresh : ¬ vn x ∈ Goml.Dce.keys gρ := hinvP.disj _ (by rw [ndDecls_varDecl]; exact List.mem_cons_self)
     have hvd : StmtS F gρ gw (.varDecl (vn x) (goTy v.annTy) none) (.ok ((vn x, zero F (goTy v.annTy)) :: gρ, .normal) gw) :=
       stmt_varDecl_none (flat_not_absurd hsc)
     have hne : ∀ y ty, lookupTy Γ y = some ty → vn y ≠ vn x := fun y ty hy e => by
@@ -330,11 +367,11 @@ theorem let_order {env : Env} {file : AFile} {G : List String} {P : Prog} {F : G
       GInv.right (a := [GStmt.varDecl (vn x) (goTy v.annTy) none]) (b := d.1)
         (D := [(vn x, zero F (goTy v.annTy))]) (U := gρ) (by simpa using hinvP) rfl (fun y hy => by
           simp only [Goml.Dce.keys_cons, Goml.Dce.keys_nil, List.mem_singleton] at hy; subst hy
-          rw [allDecls_varDecl]; exact List.mem_cons_self)
+          rw [ndDecls_varDecl]; exact List.mem_cons_self)
     have htgtd : TgtOK (.assign (rn x)) Γ ((vn x, zero F (goTy v.annTy)) :: gρ) v.annTy := by
       refine ⟨by rw [← vn_def]; simp, fun y ty hy => ?_⟩
       rw [← vn_def]; exact hne y ty hy
-    have hD := hc (.assign (rn x)) _ v Γ ρ w _ gw Bad hfv hrel1 hw (hd ▸ hinvd) htgtd hus hcalv
+    have hD := hc (.assign (rn x)) _ v Γ K ρ w _ gw Bad hfv hrel1 hkrel hw (hd ▸ hinvd) htgtd hus hcalv
     rw [hd] at hD
     revert hD
     cases hres : Sem.eval n P ρ w v.toExpr with
@@ -344,7 +381,7 @@ theorem let_order {env : Env} {file : AFile} {G : List String} {P : Prog} {F : G
         simp only [post]; rw [← vn_def]; exact update_cons_self _ _ _ _
       rw [hup] at hb
       have hxD1 : ¬ vn x ∈ Goml.Dce.keys D1 := fun h => by
-        have hnd := hinvP.nodup; rw [allDecls_varDecl] at hnd
+        have hnd := hinvP.nodup; rw [ndDecls_varDecl] at hnd
         exact (List.nodup_cons.mp hnd).1 (hD1 _ h)
       exact ⟨_, gv, gw1, block_cons hvd hb, h5, by rw [lookup_append_right hxD1]; exact Goml.Dce.lookup_cons_self _ _ _, h3⟩
     | fail fl w1 =>
@@ -357,17 +394,17 @@ theorem let_order {env : Env} {file : AFile} {G : List String} {P : Prog} {F : G
       | stuck s => intro _; trivial
   · have hctl' : isCtl v = false := by simpa using hctl
     simp only [letPrefix, hctl', Bool.false_eq_true, if_false, bindSimple_shape x hfv] at hinvP ⊢
-    have hV := hv v Γ ρ w gρ gw Bad hctl' hfv hrel hw hinvP.goodK hcalv
+    have hV := hv v Γ K ρ w gρ gw Bad hctl' hfv hrel hkrel hw hinvP.goodK hcalv
     revert hV
     cases hres : Sem.eval n P ρ w v.toExpr with
     | ok vv w1 =>
-      rintro ⟨gv, gw1, he, h3, h4, h5⟩
+      rintro ⟨gv, gw1, he, h3, h4, h5, _⟩
       exact ⟨_, gv, gw1, block_cons (stmt_varDecl_some (flat_not_absurd hsc) he) block_nil, h5,
         Goml.Dce.lookup_cons_self _ _ _, h3⟩
     | fail fl w1 =>
       cases fl with
       | panic k =>
-        rintro ⟨gw1, he, h5⟩
+        rintro ⟨gw1, he, h5, _⟩
         intro rest
         exact ⟨gw1, block_cons_fail (stmt_varDecl_fail (flat_not_absurd hsc) he), h5⟩
       | fuel => intro _; trivial
